@@ -52,6 +52,12 @@ CHECKS["C04"] = dict(
     technique="Coq proof (execution plan partition) + merge-oracle reassembly check under a controlled event loop",
     design="4/C04")
 
+CHECKS["C20"] = dict(
+    text="Coq model `validate : raw_schema -> list rule_kind` of type/validate.py over raw (possibly ill-kinded) schemas. Proved: the assert site of default-value validation and fuel exhaustion are unreachable for every schema; `validate rs = [] <-> ValidSchema rs` for a declarative rule set covering every rule of validate.py (inductive Subtype and LitValid relations, acyclicity by reachability); both DFS cycle detectors terminate (fuel = #types / #input fields), are sound and complete; per-kind iff for input/output position, invalid default, required-deprecated and both cycle kinds. Correspondence: generated valid schemas, single (all-sites) and double rule-violating mutants, and grammar-random ill-kinded schemas, built programmatically and from SDL (with/without SDL pre-validation, with extensions); compared on raise / emptiness / set of rule kinds / graphql_sync response",
+    note="every rule of validate.py is in the model; not modelled: error node/location lists and message wording, order of errors, the _validation_errors cache, assume_valid=True; defaults modelled for const literals and plain Python values, custom scalars accept everything; not generated: constructor-rejected inputs, NonNull-of-NonNull; the dump of the built schema and the message-to-kind classifier are trusted harness code; no refinement proof ties validate.py's control flow to the model (correspondence only)",
+    technique="Coq proof (validator reflects declarative rules; cycle detectors sound and complete) + extraction-based correspondence on mutants",
+    design="4/C20")
+
 NOT_YET = {}
 
 
